@@ -253,7 +253,8 @@ BatchFails(ps, bs, a, base, max) ==
   IN (IF FlattenSeq([i \in DOMAIN bs |-> Vals(AxisPs(bs[i], a))]) = vals THEN {} ELSE {"Batch_Partition"})
      \cup (IF Len(bs) >= 1 /\ (vals # <<>> => \A i \in DOMAIN bs : AxisPs(bs[i], a) # <<>>) THEN {} ELSE {"Batch_NonEmpty"})
      \cup (IF \A i \in DOMAIN bs : Core(OtherPs(bs[i], a)) = Core(others) THEN {} ELSE {"Batch_OthersUnchanged"})
-     \cup (IF (\A i \in DOMAIN AxisPs(ps, a) : single(AxisPs(ps, a)[i])) => (\A i \in DOMAIN bs : base + UrlLen(bs[i]) <= max)
+     \* (without values there is nothing to split: the fixed parameters are as long as they are)
+     \cup (IF (vals # <<>> /\ \A i \in DOMAIN AxisPs(ps, a) : single(AxisPs(ps, a)[i])) => (\A i \in DOMAIN bs : base + UrlLen(bs[i]) <= max)
            THEN {} ELSE {"Batch_Budget"})
 
 (* Reference batching (greedy, in order): shows the clauses are satisfiable.  costs[i] is what value i
